@@ -258,6 +258,32 @@ macro_rules! swap64 {
     }};
 }
 
+/// Values that differ from `a` in a structured way: the same XOR difference in every 32-bit
+/// word, in every 64-bit half, in every 128-bit lane, two bits in different words, halves swapped
+/// (an equality folded with the wrong operator lets such differences cancel).
+fn structured_neighbours(a: &[u8], i: usize) -> Vec<Vec<u8>> {
+    let mut v = Vec::new();
+    let d = ((i as u32).wrapping_mul(0x9e37_79b9) | 1).to_le_bytes();
+    for period in [4usize, 8, 16] {
+        let mut o = a.to_vec();
+        for (k, b) in o.iter_mut().enumerate() {
+            if k % period < 4 {
+                *b ^= d[k % period];
+            }
+        }
+        v.push(o);
+    }
+    let mut o = a.to_vec();
+    o[i % a.len()] ^= 1 << (i % 8);
+    o[(i + 8) % a.len()] ^= 1 << (i % 8);
+    v.push(o);
+    let mut o = a.to_vec();
+    o.rotate_left(8);
+    v.push(o);
+    v.retain(|o| &o[..] != a);
+    v
+}
+
 fn neq(what: &str, got: &[u8], exp: &[u8]) -> Result<(), String> {
     if got != exp {
         Err(format!("{}: got {} expected {}", what, hex(got), hex(exp)))
@@ -350,6 +376,11 @@ pub fn scan<M: Machine>(m: M, sc: &mut Scan) {
             o[i % 16] ^= 1 << (i % 8);
             if !(s == s128(&a)) || s == s128(&o) {
                 return Err(format!("vec128_storage == is not bytewise equality for {}", hex(&a)));
+            }
+            for o in structured_neighbours(&a, i) {
+                if s == s128(&o) || !(s != s128(&o)) {
+                    return Err(format!("vec128_storage: {} == {} although they differ", hex(&a), hex(&o)));
+                }
             }
             neq("default storage", &b128(vec128_storage::default()), &[0u8; 16])?;
             storage128_extra(&a, s)
@@ -482,6 +513,11 @@ pub fn scan<M: Machine>(m: M, sc: &mut Scan) {
             if !(s2 == s256(&a)) || s2 == s256(&o) {
                 return Err(format!("vec256_storage == is not bytewise equality for {}", hex(&a)));
             }
+            for o in structured_neighbours(&a, i) {
+                if s2 == s256(&o) || !(s2 != s256(&o)) {
+                    return Err(format!("vec256_storage: {} == {} although they differ", hex(&a), hex(&o)));
+                }
+            }
             neq("default storage", &b256(vec256_storage::default()), &[0u8; 32])?;
             storage256_extra(&a, s2)
         });
@@ -538,6 +574,11 @@ pub fn scan<M: Machine>(m: M, sc: &mut Scan) {
             o[i % 64] ^= 1 << (i % 8);
             if !(s == s512(&a)) || s == s512(&o) {
                 return Err(format!("vec512_storage == is not bytewise equality for {}", hex(&a)));
+            }
+            for o in structured_neighbours(&a, i) {
+                if s == s512(&o) || !(s != s512(&o)) {
+                    return Err(format!("vec512_storage: {} == {} although they differ", hex(&a), hex(&o)));
+                }
             }
             neq("default storage", &b512(vec512_storage::default()), &[0u8; 64])?;
             storage512_extra(&a, s)
